@@ -303,7 +303,7 @@ def discoverField (incRex : Bool) (rexOf : List Val → List Nat) (c : Column) (
       let nNull := calcNullCount c
       let nNonNull := calcNonNullCount c
       let maxNullsC := if nNull < 2 then [Constraint.maxNulls (some nNull)] else []
-      let nUnique : Int := if c.ftype == .string || c.ftype == .int then calcNunique c else -1
+      let nUnique : Int := if c.ftype != .real then calcNunique c else -1
       let uniqs0 : Option (List Val) :=
         if c.ftype == .string && nUnique ≤ maxCategories then some (calcUniques c) else none
       let allowedC := match uniqs0 with
